@@ -167,6 +167,28 @@ done:
 // C04 //
 /////////
 
+static void put_vli(vbuf *d, uint64_t v) { while (v >= 0x80) { vbuf_putc(d, (uint8_t)(v | 0x80)); v >>= 7; } vbuf_putc(d, (uint8_t)v); }
+
+// An Index field whose Number of Records is at the edge of what size arithmetic can hold (counts near 2^60, 2^61,
+// 2^63-1 and SIZE_MAX / sizeof(record)), followed by a few well-formed Records, padding and a matching CRC32.
+static void craft_extreme_index(vrng *r, vbuf *d, char *desc, size_t descsz)
+{
+	static const uint64_t bases[] = { UINT64_C(1) << 60, UINT64_C(1) << 61, UINT64_C(1) << 62, (UINT64_C(1) << 63) - 1, UINT64_MAX / 16, UINT64_MAX / 24, UINT64_C(1) << 32, UINT64_C(1) << 34, (UINT64_C(1) << 59) + 5 };
+	uint64_t count = bases[vrng_below(r, 9)];
+	int64_t delta = (int64_t)vrng_below(r, 9) - 4;
+	if (delta < 0 && count >= (uint64_t)-delta) count -= (uint64_t)-delta; else if (delta > 0 && count <= ((UINT64_C(1) << 63) - 1) - (uint64_t)delta) count += (uint64_t)delta;
+	if (count > (UINT64_C(1) << 63) - 1) count = (UINT64_C(1) << 63) - 1;
+	vbuf_clear(d);
+	vbuf_putc(d, 0);
+	put_vli(d, count);
+	unsigned recs = vrng_below(r, 4);
+	for (unsigned i = 0; i < recs; ++i) { put_vli(d, 5 + vrng_logsize(r, 1u << 20)); put_vli(d, vrng_logsize(r, 1u << 22)); }
+	while (d->n & 3) vbuf_putc(d, 0);
+	uint32_t crc = lzma_crc32(d->p, d->n, 0);
+	for (int i = 0; i < 4; ++i) vbuf_putc(d, (uint8_t)(crc >> (8 * i)));
+	snprintf(desc, descsz, "crafted-index[count=%" PRIu64 ",%u records]", count, recs);
+}
+
 static void c04_case(uint64_t idx)
 {
 	vrng r; vrng_init(&r, A.seed, 0xC04, idx, 0);
@@ -175,6 +197,11 @@ static void c04_case(uint64_t idx)
 	size_t max_plain = vrng_chance(&r, 1, 10) ? (A.thorough ? (1u << 20) : 300000) : 20000;
 	pick_input(&r, &g, max_plain, 70, mdesc, sizeof(mdesc));
 	int kind = vrng_chance(&r, 4, 5) ? dec_for_stream(&r, &g) : (int)vrng_below(&r, D_COUNT);
+	if (vrng_chance(&r, 1, 40)) {
+		craft_extreme_index(&r, &g.data, g.desc, sizeof(g.desc)); mdesc[0] = 0; kind = D_INDEX;
+		g.plain_known = false;
+		hx_count("extreme_index_cases", 1);
+	}
 	dec_spec spec; dec_spec_for(&spec, kind, &g);
 	if (kind == D_RAW && !spec.filters) kind = spec.kind = D_STREAM;
 	if (kind == D_MICROLZMA && !g.cfg_valid) {
@@ -202,7 +229,7 @@ static void c04_case(uint64_t idx)
 	alloc_mon mon; alloc_mon_init(&mon);
 	mon.huge_limit = 300u << 20;
 	// in a third of the reused-handle cases one allocation of the first life fails (the second life must not notice)
-	if (reused && vrng_chance(&r, 1, 3)) { spec.warm_mon = &mon; spec.warm_fail_at = 1 + (int)vrng_below(&r, 14); hx_count("reused_handle_first_life_alloc_failure", 1); }
+	if (reused && vrng_chance(&r, 1, 2)) { spec.warm_mon = &mon; spec.warm_fail_at = 1 + (int)vrng_below(&r, 14); hx_count("reused_handle_first_life_alloc_failure", 1); }
 	hx_sample("c04 %s%s%s dec=%s flags=0x%x memlimit=%" PRIu64 " slicing=%s/%zu/%zu fin=%d outlimit=%zu", g.desc, mdesc[0] ? " MUT:" : "", mdesc,
 			d_names[kind], spec.flags, spec.memlimit, slice_mode_name(p.mode), p.max_in, p.max_out, (int)p.final_action, p.out_limit);
 	dec_result d;
